@@ -107,6 +107,7 @@ class DomainSession:
             v = as_violation(e, self.trace())
             if v is None:
                 raise
+            DomainSession.last_violation = v
             if v is e:
                 raise
             raise v from None
